@@ -261,6 +261,7 @@ def run(prop, tier, replay):
         "with special characters when nothing changes; idempotent create of an existing table / drop of an absent one; listing a path that "
         "is not a namespace; in dual mode a deregistered root table stays visible through the directory fallback",
         "table locations are compared relative to the catalog root; describe_table must return the location the create / register call returned",
+        "a generated history that leaves two or more tables in the root namespace is extended by one paged list_tables of the root",
     ]
     pool = cf.ThreadPoolExecutor(max_workers=6)
     phases = {}
@@ -296,6 +297,12 @@ def run(prop, tier, replay):
             chosen, _ = pick(uniq, per, rnd)
             gen_info.append({"gen": source, "names": names, "mode": mode, "how": note, "distinct": len(uniq), "replayed": len(chosen)})
             for h in chosen:
+                # a history that leaves two or more tables in the root is extended by one paged listing of the root
+                # (List is enabled in every state of the model and changes nothing): random histories rarely page
+                roots = {json.dumps(st["id"]) for st in h if st["op"] in ("create_table", "create_empty_table", "register_table")
+                         and st.get("r") == "ok" and len(st.get("id", [])) == 1}
+                if len(roots) >= 2 and not any(st["op"] == "list_tables" and st.get("limit", 0) > 0 and not st.get("id") for st in h):
+                    h = h + [{"op": "list_tables", "id": [], "limit": rnd.choice((1, 1, 2)), "r": "ok"}]
                 scenarios.append(hist_to_scenario(h, len(scenarios) + 1, mode, f"{source}:{names}", rnd))
     for f in families:
         vals = vlib._printed(open(mc_results[f]["out"]).read(), "SCN")
